@@ -136,7 +136,7 @@ def unknown(why):
 
 def has_unknown(x):
     if is_term(x):
-        if x[0] == "unknown":
+        if x[0] in ("unknown", "pend", "listpend", "carried"):
             return True
         return any(has_unknown(y) for y in x[1:])
     if isinstance(x, (tuple, list)):
@@ -151,6 +151,10 @@ def unknown_reasons(x, out=None):
     if is_term(x):
         if x[0] == "unknown":
             out.append(x[1])
+        elif x[0] in ("pend", "listpend"):
+            out.append("an array is used while a loop is still filling it")
+        elif x[0] == "carried":
+            out.append(f"`{x[1]}` carries a non-scalar value from one loop iteration to the next")
         else:
             for y in x[1:]:
                 unknown_reasons(y, out)
@@ -653,9 +657,10 @@ class Interp:
         self.calls = []         # (ext name, args, kwargs) of recorded external constructor calls
         self.visited = []
         self.depth_calls = 0
+        self.param_cells = []
 
     # ----- calling
-    def call_scope(self, scope, args, kwargs, bound=None):
+    def call_scope(self, scope, args, kwargs, bound=None, top=False):
         if self.depth_calls > 12:
             raise Unsupported("call depth")
         if scope not in self.visited:
@@ -680,10 +685,14 @@ class Interp:
                     raise Unsupported(f"missing argument {p_} of {scope.name}")
                 env[p_] = Cell(self.ev(d, env, scope))
         self.depth_calls += 1
+        # array arguments are passed by reference in Python: a callee that stores into one changes the caller's array, which this
+        # interpreter (values, not references, cross the call boundary) would miss -- such a store is refused
+        self.param_cells.append(set() if top else {id(c) for c in env.values()})
         try:
             paths = self.block(scope.body(), env, scope)
         finally:
             self.depth_calls -= 1
+            self.param_cells.pop()
         return self._merge_returns(paths)
 
     def _merge_returns(self, paths):
@@ -837,11 +846,15 @@ class Interp:
         if isinstance(t, ast.Attribute):
             o = self.ev(t.value, env, scope)
             if isinstance(o, Obj):
+                if self.loops:
+                    raise Unsupported("attribute assignment inside a loop")
                 o.attrs[t.attr] = share if share is not None else Cell(v)
                 return
             raise Unsupported(f"attribute store on a non-object: {ast.dump(t)[:80]} -> {o!r}")
         if isinstance(t, ast.Subscript):
             cell = self.cell_of(t.value, env, scope)
+            if self.param_cells and id(cell) in self.param_cells[-1]:
+                raise Unsupported("in-place update of an array argument inside a helper")
             idx = self.index_value(t.slice, env, scope)
             cell.v = self.store(cell.v, idx, v)
             return
@@ -900,6 +913,9 @@ class Interp:
                 pre = f"pre[{n}@{depth}]"
                 lc.pre[n] = (pre, env[n].v)
                 env[n] = Cell(atom(pre))
+            elif n in env and not isinstance(env[n].v, (Obj, Func, Ext)):
+                # re-bound in the body: a read before the re-binding would see the previous iteration's value
+                env[n] = Cell(("carried", n))
         self.assign(st.target, val, env, scope, None)
         self.loops.append(lc)
         try:
